@@ -142,6 +142,29 @@ theorem providers_all_when_count_zero (arrivals : List Nat) : ∀ p ∈ arrivals
   intro p hp
   exact (key { left := 0 } arrivals).2 p hp
 
+/-- for every arrival order: providers are handed on in the order of their first arrival (the merged stream is a
+    subsequence of the arrivals) -/
+theorem providers_in_arrival_order (count : Nat) (arrivals : List Nat) : (merge count arrivals).Sublist arrivals := by
+  have key : ∀ (rest arr : List Nat) (s : MState), s.found.Sublist arr →
+      (rest.foldl (mergeStep (count == 0)) s).found.Sublist (arr ++ rest) := by
+    intro rest
+    induction rest with
+    | nil => intro arr s h; simpa using h
+    | cons x xs ih =>
+      intro arr s h
+      simp only [List.foldl_cons]
+      have hstep : (mergeStep (count == 0) s x).found.Sublist (arr ++ [x]) := by
+        unfold mergeStep
+        split
+        · exact h.trans (List.sublist_append_left _ _)
+        · split
+          · exact h.trans (List.sublist_append_left _ _)
+          · exact List.Sublist.append h (List.Sublist.refl _)
+      have := ih (arr ++ [x]) _ hstep
+      simpa [List.append_assoc] using this
+  have := key arrivals [] { left := count } (by simp)
+  simpa [merge] using this
+
 /-! ### address scoping -/
 
 /-- no address is both public and private for the DHT's filters -/
